@@ -156,3 +156,28 @@ def parse_bounded(text, limit, builder="dom", namespace=True, scripting=False, c
     else:
         r = p.parseFragment(text, container=container, scripting=scripting)
     return r, p
+
+
+_ALT = {}
+
+
+def alt_etree():
+    """A second ElementTree implementation (the pure-Python one, loaded under another module name beside the accelerated default):
+    what getTreeBuilder / getTreeWalker('etree', implementation=X) are for."""
+    if "m" not in _ALT:
+        import importlib.util
+        import sys
+        import xml.etree.ElementTree as D
+        saved = sys.modules.get("_elementtree", 0)
+        sys.modules["_elementtree"] = None
+        try:
+            spec = importlib.util.spec_from_file_location("xml.etree.PyElementTree", D.__file__)
+            m = importlib.util.module_from_spec(spec)
+            spec.loader.exec_module(m)
+        finally:
+            if saved == 0:
+                del sys.modules["_elementtree"]
+            else:
+                sys.modules["_elementtree"] = saved
+        _ALT["m"] = m
+    return _ALT["m"]
